@@ -21,11 +21,11 @@ def command_events(ctx, thorough):
 
     cnts = {}
 
-    def mkfile(name, ids):
+    def mkfile(name, ids, holes=()):
         os.makedirs(os.path.dirname(os.path.join(d, name)), exist_ok=True)
         with open(os.path.join(d, name), "w") as f:
             for i in ids:
-                lens[i] = rng.randint(1, 90)
+                lens[i] = rng.randint(1, 90) if i not in holes else 0
                 cnts[i] = rng.choice([1, 1, 2, 7])
                 seq = "".join("acgt"[(i + k) % 4] for k in range(lens[i]))
                 f.write(">r%d {\"n\":%d,\"count\":%d}\n%s\n" % (i, i, cnts[i], seq))
@@ -51,7 +51,13 @@ def command_events(ctx, thorough):
              "c.fa": list(range(nrec + 8, nrec + 12)), "one.fa": [nrec + 20]}
     order.update(dirfiles)
     fileof = {i: f for f, ids in dirfiles.items() for i in ids}
-    maxid = nrec + 44
+    # records without nucleotides in the middle of the text given on standard input (its reader accepts them, --skip-empty
+    # drops them at the writer): the records that follow them must all come out
+    hole_ids = list(range(nrec + 50, nrec + 75))
+    holes = {nrec + 53, nrec + 54, nrec + 60, nrec + 74}
+    mkfile("holes.fa", hole_ids, holes)
+    order["holes.fa"] = hole_ids
+    maxid = nrec + 75
     lenvec = [lens.get(i, 0) for i in range(1, maxid + 1)]
     cntvec = [cnts.get(i, 0) for i in range(1, maxid + 1)]
     cpus = [1, 2, 3, 8, 32] if thorough else [1, 2, 3, 8]
@@ -72,6 +78,18 @@ def command_events(ctx, thorough):
                     evs.append({"op": "count", "cmd": cmd, "argv": [cmd, "--max-cpu", str(cpu), "--batch-size", str(bs)] + fs,
                                 "cpu": cpu, "bs": bs, "files": [order[f] for f in fs if f in order], "lens": lenvec, "counts": cntvec,
                                 "hung": 0, "fatal": 0, "_dirs": [f for f in fs if f not in order]})
+    for cpu in cpus:
+        for bs in (2, 1000):
+            # (standard input only: the reader of file arguments refuses a record without nucleotides)
+            for stdin in (os.path.join(d, "holes.fa"),):
+                argv = ["obiconvert", "--max-cpu", str(cpu), "--batch-size", str(bs), "--skip-empty"] + ([] if stdin else ["holes.fa"])
+                jobs.append({"argv": [os.path.join(bindir, argv[0])] + argv[1:], "cwd": d, "stdin": stdin})
+                evs.append({"op": "cmd", "cmd": "obiconvert", "argv": argv + (["<", "holes.fa"] if stdin else []), "cpu": cpu, "bs": bs,
+                            "files": [hole_ids], "lens": [0] * maxid, "minlen": 1, "hung": 0, "fatal": 0, "_dirs": []})
+    for e in evs:
+        e["lens"] = [lens.get(i, 0) for i in range(1, maxid + 1)]
+        if "counts" in e:
+            e["counts"] = [cnts.get(i, 0) for i in range(1, maxid + 1)]
     res = ctx.run_many(jobs, timeout=120)
     import json as _json
     for e, r in zip(evs, res):
